@@ -26,6 +26,7 @@ import (
 
 	"github.com/DemoHn/Zn/pkg/exec"
 	r "github.com/DemoHn/Zn/pkg/runtime"
+	"github.com/DemoHn/Zn/pkg/common"
 	"github.com/DemoHn/Zn/pkg/server"
 	"github.com/DemoHn/Zn/pkg/value"
 
@@ -53,6 +54,8 @@ var c16Probes = []string{
 	"导入《@文件》\n导入《@JSON》\n令税 = 26\n如何算？\n    输出税 * 2\n输出【（算），（生成JSON：【a=1】）】",
 	"令税 = 27\n如何算？\n    输出税 * 2\n如何再算？\n    输出（算） + 税\n输出（再算）",
 	"导入《@JSON》之生成JSON\n如何算？\n    输出（生成JSON：【b=2】）\n输出（算）",
+	// a type that a library exports
+	"导入《@HTTP》\n令应 = （新建HTTP响应：201、“ok”、【“X-A”=“1”】）\n输出【应之状态码，应之内容】",
 }
 
 // ---- polluters
@@ -79,6 +82,13 @@ func c16Polluters() []string {
 		"导入《@文件》\n导入《@JSON》\n如何甲法？\n    输出1\n输出（甲法）",
 		"导入《@文件》之读取文件\n如何甲法？\n    输出1\n如何乙法？\n    输出2\n输出（乙法）",
 		"导入《@JSON》\n生成JSON = 1",
+		// the constructor of a type that a LIBRARY exports (as 异常 and 数值 above: not the program's to replace)
+		"导入《@HTTP》\n如何新建HTTP响应？\n    输入甲、乙、丙\n    （显示：“hijacked”）\n输出1",
+		"导入《@HTTP》之HTTP响应\n如何新建HTTP响应？\n    输入甲、乙、丙\n    其状态码 = 500\n输出（新建HTTP响应：200、“ok”、【】）之状态码",
+		// input-variable texts that reach a predefined value
+		c16VarText + "甲 = 以数值（自增：4）",
+		c16VarText + "甲 = 数值；乙 = 以甲（自减：3）",
+		c16VarText + "甲 = 以数值（自增：1）+ 1 / 0",
 		"如何一？\n    输出1 / 0\n如何二？\n    输出（一）\n如何三？\n    输出（二）\n输出（三）",
 		"如何一？\n    抛出异常：“x”！\n如何二？\n    输出（一）\n    拦截异常：\n        输出0\n输出（二）",
 		"定义型：\n    其P = 1\n如何新建型？\n    抛出异常：“ctor”！\n输出（新建型）",
@@ -136,10 +146,36 @@ func c16Outcome(o zn.Outcome) string {
 
 // run one program through a given interpreter (shared) or a fresh one
 func c16Exec(in *exec.Interpreter, src string) string {
+	if text, isVar := strings.CutPrefix(src, c16VarText); isVar {
+		// an input-variable text (what a request hands over next to the program): evaluated on
+		// its own path, outside any interpreter object
+		return c16VarOutcome(text)
+	}
 	if in == nil {
-		return c16Outcome(zn.RunReal(src, nil))
+		in = c16NewInterp()
 	}
 	return c16Outcome(zn.RunRealWith(in, src, nil))
+}
+
+// c16VarText marks a polluter that is an input-variable text, not a program.
+const c16VarText = "输入变量文本："
+
+func c16VarOutcome(text string) (out string) {
+	defer func() {
+		if p := recover(); p != nil {
+			out = fmt.Sprint("PANIC ", p)
+		}
+	}()
+	m, err := exec.ExecVarInputText(text)
+	if err != nil {
+		return "ERR " + err.Error()
+	}
+	var ks []string
+	for k, v := range m {
+		ks = append(ks, k+"="+zn.CanonElem(v))
+	}
+	sort.Strings(ks)
+	return "OK " + strings.Join(ks, ",")
 }
 
 func c16ProbeVector(in *exec.Interpreter) []string {
@@ -174,6 +210,9 @@ var c16Reqs = []c16Req{
 	c16R("g-json", "playground", "导入《@JSON》\n令甲 = （生成JSON：【a=1】）\n输出甲", ""),
 	c16R("h-error", "playground", "令甲 = 1\n输出甲 / 0", ""),
 	c16R("i-varinput", "playground", "输入甲\n输出甲 * 2", "甲 = 21"),
+	// input texts that reach a predefined value: in place in the text itself / in the program
+	c16R("q-varinput-changes-global", "playground", "输入甲\n输出甲", "甲 = 以数值（自增：4）"),
+	c16R("r-varinput-hands-global-over", "playground", "输入甲\n以甲（自增：2）\n输出甲", "甲 = 数值"),
 	// the predefined random source (the value is random by design: it is not part of the answer)
 	c16R("n-random", "playground", "令甲 = （取随机数）\n令乙 = （取随机数）\n输出甲 >= 0 且 乙 < 1", ""),
 	c16R("j-file-1", "http", "令甲 = “file-one”\n输出甲", ""),
@@ -226,8 +265,14 @@ func c16Serve(in *exec.Interpreter, rq c16Req) string {
 	return fmt.Sprintf("%d %s", w.Code, w.Body.String())
 }
 
+// c16Libs: the JSON and file libraries plus one that exports a TYPE (stdlib/http registers HTTP响应
+// like this in the product; it does not compile at this commit): the type object is one per process
+func c16Libs() []*r.Library {
+	return append(zn.Libs(), r.NewLibrary("@HTTP").RegisterClass("HTTP响应", common.CLASS_HttpResponse))
+}
+
 func c16NewInterp() *exec.Interpreter {
-	return exec.NewInterpreter("verif").SetExternalLibs(zn.Libs())
+	return exec.NewInterpreter("verif").SetExternalLibs(c16Libs())
 }
 
 type c16Case struct {
